@@ -420,6 +420,8 @@ def _count_ab(ctx: Ctx, rec):
                     ctx.bump("estimate_above_max")
                 if x == rec["tmin"] or x == rec["tmax"]:
                     ctx.bump("estimate_on_a_limit")
+                if rec["tmin"] < x < rec["tmax"]:
+                    ctx.bump("estimate_inside_limits")
             else:
                 ctx.bump("zero_depth")
             if d["anone"]:
@@ -1019,6 +1021,37 @@ def run(ctx: Ctx):
     if os.environ.get("X03_PROPOSED_KNOWN") == "1":
         have = {e["id"] for e in ctx.known}
         ctx.known += [e for e in PROPOSED_KNOWN if e["id"] not in have]
+    ctx.rule = (
+        "direction 1: every state of MC_Autobin (binsize: bp_per_bin x target limits x antitarget limits x a 15-value depth "
+        "grid incl. 0, dyadic values with exact halves, thirds; midsize: every sequence of <= 4 file sizes over 0..2; "
+        "autobin on tables: mapped counts {0,4,10}^3 x read length x wgs/hybrid/amplicon x access tables x target tables "
+        "x supplied target depth) and of MC_Theta (unpipe: every name of <= 3 parts over 7 labels; import_theta: 1..3 "
+        "autosomal segments (+chrX) x 1..2 populations x every copy-number matrix over {X,0,3} x ploidy; export_theta: 2 "
+        "segments x chromosome pair x ratios x probes x weights none/old/modern x normal table; metrics: 1..3 coverage "
+        "tables x 0..3 segment tables x skip_low x depth column; import_picard: 3 targets x zero/positive coverage x "
+        "too_many; theta_snps: one variant over chromosome x indel x missing counts x alt>depth) replayed into the real "
+        "code.  direction 2: seeded random inputs: depth2binsize on random rationals and limits; file sizes; do_autobin on "
+        "random idxstats tables (1-5 contigs, targets/access rows incl. overlapping rows, fully targeted contigs, chromosome "
+        "order unlike the BAM header) and on synthetic BAMs written by pysam (1-4 contigs, <= 700 reads, soft clips, "
+        "duplicate/secondary/unmapped/QC-fail flags, mixed read lengths, 1..130 targets); export_theta / import_theta on "
+        "1..20 segments over chr1..22, X, Y, odd names, with/without normal bins, probes, weights; Picard per-target "
+        "tables; bin and segment tables for metrics; SNV tables.  A case is distinct by its whole input; non-trivial as "
+        "noted per op (e.g. midsize with >= 2 files, autobin without an error outcome).")
+    ctx.trusted_base = ["TLC 1.8 evaluating spec/Autobin.tla, spec/Theta.tla (with Num, Stats, Coverage)",
+                        "pysam writing / indexing the synthetic BAMs exactly as the harness specifies the reads",
+                        "harness wrappers of samutil.idxstats input (pysam.idxstats text), samutil.get_read_length, "
+                        "autobin.sample_region_cov, autobin.hybrid and importers.logging (table-mode and binsize records)",
+                        "math.log2 / 2**x / float division in the harness encoders; 12-digit fixed-point encoding (enc.fx)",
+                        "tokenisation of the written THetA table (c20.tok)"]
+    ctx.assumptions = ["records outside the TLA+ premises are counted out_of_scope (e.g. min > max limits, targets on contigs "
+                       "absent from the BAM, THetA result files whose interval count differs from the autosomal segments, "
+                       "bins straddling a segment boundary, an empty segment table)",
+                       "CRAM / --fasta paths, the autobin CLI wrapper (BED writing) and the random subset drawn when more than "
+                       "100 mid-size regions exist are not modelled (the latter is checked only through the P-layer range clause)",
+                       "P-layer = documented behaviour only; undocumented arithmetic (quartile selection, count scale for weights, "
+                       "which coverage column feeds log2, row order of import-picard) is A-layer (MODEL-DRIFT)"]
+    ctx.notes["proposed_known_findings"] = {"applied": os.environ.get("X03_PROPOSED_KNOWN") == "1",
+                                            "entries": [e["id"] for e in PROPOSED_KNOWN]}
     only = os.environ.get("X03_ONLY", "")            # development aid (mutant runs): "autobin" or "theta"
     n_ab = n_th = 0
     if only != "theta":
@@ -1031,6 +1064,8 @@ def run(ctx: Ctx):
         ctx.notes["partial_run"] = only
     ctx.exhaustive = (f"MC_Autobin: {n_ab} enumerated inputs; MC_Theta: {n_th} enumerated inputs -- every dumped state "
                       "replayed into the real code")
+    if ctx.drift_samples:
+        ctx.notes["drift_samples"] = ctx.drift_samples[:3]
 
 
 def replay(ctx, doc):
